@@ -261,8 +261,8 @@ def finish(pid, tier, seed, cfg, reports, extra, t0):
         elif rep.get('kindof') == 'function' and not rep['obligations']:
             errors.append(f"{rep['id']}: zero obligations generated")
         if rep.get('kindof') == 'function' and st == 'ok':
-            if rep.get('pre_sat') != 'sat':
-                errors.append(f"{rep['id']}: precondition not satisfiable ({rep.get('pre_sat')}): vacuous contract")
+            if rep.get('pre_sat') == 'unsat':
+                errors.append(f"{rep['id']}: precondition not satisfiable: vacuous contract")
         for ob in rep['obligations']:
             n_obl += 1
             solver_s += ob.get('seconds', 0)
